@@ -1,6 +1,6 @@
 //! C02 — lexical scoping: innermost binding wins, closures share mutable locations.
 use crate::case::Case;
-use crate::gen::g02::{enumerate_small, random_skeleton, Skeleton};
+use crate::gen::g02::{enumerate_small, loop_session, random_skeleton, Skeleton};
 use crate::kernel::{Knobs, SlicePlan};
 use crate::props::c01::{evaluate, make_violation, EvalOut};
 use crate::props::gcsearch::pick_gc_plan;
@@ -24,26 +24,31 @@ struct RunResult {
 
 fn one_run(seed: u64, run: u64, skeleton: Option<&Skeleton>) -> RunResult {
     let mut rng = Rng::new(mix(seed, "C02", run));
-    let sk = match skeleton {
-        Some(s) => s.clone(),
+    // a fifth of the sampled runs: loop sessions (activations = iterations of a loop)
+    let (forms, nontrivial, depth) = match skeleton {
+        Some(s) => (s.render(), s.nontrivial(), s.depth()),
         None => {
             let mut wl = rng.fork();
-            random_skeleton(&mut wl)
+            if run % 5 == 4 {
+                (loop_session(&mut wl), true, 0)
+            } else {
+                let sk = random_skeleton(&mut wl);
+                (sk.render(), sk.nontrivial(), sk.depth())
+            }
         }
     };
-    let forms = sk.render();
     let text: Vec<String> = forms.iter().map(|f| f.text()).collect();
     let key = fnv64(text.join("\n").as_bytes());
     let mut res = RunResult {
         evals: 0,
         layouts: 0,
         violation: None,
-        nontrivial: sk.nontrivial(),
+        nontrivial,
         key,
         discarded: 0,
         instrs: 0,
         sample: None,
-        depth: sk.depth(),
+        depth,
     };
     // the same skeleton under >= 4 closure-slot layouts; collection schedules and slices composed
     for layout in 0..4u64 {
@@ -92,7 +97,7 @@ pub fn run(tier: Tier, seed: u64, ev: &mut Evidence) -> Vec<Violation> {
     ev.rule = "scope skeletons: nested procedures over names a,b,c, each level binding each name as parameter / rest parameter / internal \
                definition / not at all, reads (logged with a unique tag) and set! (unique values) before and after closure creation, inner \
                closure called at once / twice through a let / as internal definition / stored in a global and called from later forms / \
-               returned and called from separate activations; complete enumeration of depth <= 2 over two names with canonical actions \
+               returned and called from separate activations; a fifth of the sampled runs are loop sessions (each iteration of a self-tail-recursive, named-let, mutually recursive, non-tail, apply or for-each loop creates closures over the loop variables, which are used and mutated after the loop); complete enumeration of depth <= 2 over two names with canonical actions \
                (first runs), seeded sampling up to depth 4 over three names; each skeleton under 4 closure-slot layouts (hook H4) with collection \
                schedules and slices composed; oracle: the reference machine's read log and final globals. distinct = skeleton text hash; \
                non-trivial = a name is shadowed and a captured variable is mutated after capture"
@@ -112,7 +117,11 @@ pub fn run(tier: Tier, seed: u64, ev: &mut Evidence) -> Vec<Violation> {
         ev.fault("slot_order_permutation", r.layouts);
         ev.count("discarded", r.discarded);
         ev.count("simulated_instructions", r.instrs);
-        ev.count(&format!("skeletons_depth_{}", r.depth), 1);
+        if r.depth == 0 {
+            ev.count("loop_sessions", 1);
+        } else {
+            ev.count(&format!("skeletons_depth_{}", r.depth), 1);
+        }
         if r.nontrivial {
             distinct.insert(r.key);
         }
